@@ -122,7 +122,8 @@ class Builder(object):
             for f in reversed(fields): self.PrependUint16(f)
             self.PrependUint16(objectSize)
             self.PrependUint16((len(fields) + 2) * 2)
-            struct.pack_into("<i", self.Bytes, objectStart, self.Offset() - objectOffset)
+            # the buffer may have grown (at the front) while the vtable was written: locate the object again
+            struct.pack_into("<i", self.Bytes, len(self.Bytes) - objectOffset, self.Offset() - objectOffset)
             self.vtables.append(self.Offset())
         else:
             struct.pack_into("<i", self.Bytes, objectStart, existing - objectOffset)
